@@ -54,6 +54,8 @@ GTDecos == {DTight, DCom}
 FlagAccsQ == {AccStr(AllFlags, AllFlags \ {f}) : f \in AllFlags} \cup {AccStr(AllFlags \ {f}, AllFlags) : f \in AllFlags}
              \cup {AccStr({f}, {f}) : f \in AllFlags}
 FlagConfigs == {Cfg(FmtDefault, Null), Cfg(FmtConfig, Null), Cfg(FmtEncNest, Null)}
+vHi == B(<<120, 200, 255, 128>>)                    \* bytes >= 0x80 (file-backed character sources return them as they are)
+GXV == {vHi}
 SameOnly == {Same}
 ASSUME AccStrChecked
 =============================================================================
